@@ -23,7 +23,7 @@ ASSUMPTIONS = ['a taper request the program does not honour (documented fall-bac
 
 def plan (tier, seed):
     n = 2400 if tier == 'quick' else 60000
-    return [dict (i = i, seed = seed) for i in range (n)] + corpus.plan_cases (seed, tier, quick = 1, thorough = 1)
+    return [dict (i = i, seed = seed) for i in range (n)] + [dict (kind = 'ground', i = i, seed = seed) for i in range (n // 8)] + corpus.plan_cases (seed, tier, quick = 1, thorough = 1)
 # end def plan
 
 def make (spec0):
@@ -103,6 +103,38 @@ def make (spec0):
     return dict (f = 7.0, geo = geo, tr = tr, sc = sc, media = None, src = [dict (p = [1, nobj + 1], v = [1, 0])], loads = [])
 # end def make
 
+def make_ground (spec0):
+    """ wires over a ground plane with an end on it, or within / just outside the distance at which the program takes an
+        end as lying on the plane (1e-3 of the shortest segment): the segments chain from the end point the object
+        then has (on the plane, or where it was given) to the other one """
+    rng = np.random.default_rng ([spec0 ['seed'], 132, spec0 ['i']])
+    geo = []
+    nobj = int (rng.integers (1, 4))
+    segs = []
+    for k in range (nobj):
+        L  = float (10 ** rng.uniform (-0.5, 1.5))
+        n  = int (rng.choice ([1, 2, 3, 5, 8, 13, 40]))
+        segs.append (L / n)
+    tol = 1e-3 * min (segs + [0.5])
+    for k, sl in enumerate (segs):
+        n  = int (rng.choice ([1, 2, 3, 5, 8, 13, 40]))
+        L  = sl * n
+        u  = float (rng.choice ([0.0, 0.0, rng.uniform (0.05, 0.9), -rng.uniform (0.05, 0.9), rng.uniform (1.2, 3.0), rng.uniform (30, 3000)]))
+        d  = rng.normal (size = 3)
+        d [2] = abs (d [2]) + 0.3
+        d /= np.linalg.norm (d)
+        p1 = np.array ([20.0 * k, float (rng.uniform (-3, 3)), u * tol])
+        p2 = p1 + d * L
+        r  = sl / float (10 ** rng.uniform (1, 3))
+        ends = (p1, p2) if rng.random () < 0.6 else (p2, p1)
+        g  = gen.wire (n, ends [0], ends [1], r, tag = k + 1)
+        if n >= 3 and rng.random () < 0.3:
+            g ['taper'] = [int (rng.choice ([1, 2, 3])), None, None]
+        geo.append (g)
+    geo.append (gen.wire (2, [5e3, 0, 5.0], [5e3 + 1, 0, 5.0], 1e-3, tag = nobj + 1))
+    return dict (f = 7.0, geo = geo, tr = [], sc = [], media = [[0, 0, 0]], src = [dict (p = [1, nobj + 1], v = [1, 0])], loads = [], ground_ends = True)
+# end def make_ground
+
 def lengths (segs):
     return np.array ([np.linalg.norm (np.asarray (s.p2, float) - np.asarray (s.p1, float)) for s in segs])
 # end def lengths
@@ -147,7 +179,7 @@ def check (spec0):
         # the hand-made antennas of the repository (arcs, helices, tapers, transformations per object and of the whole)
         spec = corpus.make (spec0, 13, freq = False, sources = False)
     else:
-        spec = spec0 if 'geo' in spec0 else make (spec0)
+        spec = spec0 if 'geo' in spec0 else (make_ground (spec0) if spec0.get ('kind') == 'ground' else make (spec0))
     before = instrument.EVALS ['compute_segments.tiling']
     # the objects are handed over through the command line or through the classes of the library (there also with the
     # container's tags computed after the whole-structure requests, or after the first object only, and with
@@ -160,6 +192,12 @@ def check (spec0):
     if instrument.EVALS ['compute_segments.tiling'] == before:
         return dict (status = 'inconclusive', reason = 'tiling contract not evaluated')
     ref  = georef.transformed_objects (spec)
+    if spec.get ('ground_ends'):
+        snap0 = 1e-3 * min (min (lengths (x.segments)) for x in m.geo)
+        for g in spec ['geo']:
+            for e in ('p1', 'p2'):
+                if 0.9 * snap0 <= abs (g [e][2]) <= 1.1 * snap0:
+                    return dict (status = 'discard', reason = 'end within 10 % of the ground distance')
     viol = []
     mon  = {}
     def bad (monitor, key, msg):
@@ -201,6 +239,7 @@ def check (spec0):
                 q [2] = 0.0
             return q
         o ['nodes'][0], o ['nodes'][-1] = snapped (o ['nodes'][0]), snapped (o ['nodes'][-1])
+        L = np.linalg.norm (o ['nodes'][-1] - o ['nodes'][0])      # (the length of the wire between the ends it now has)
         if g ['k'] == 'w' and not (g.get ('taper')):
             o ['nodes'] = georef.wire_nodes (o ['nodes'][0], o ['nodes'][-1], g ['n'])
         if max (np.linalg.norm (ends [0] - o ['nodes'][0]), np.linalg.norm (ends [1] - o ['nodes'][-1])) > tol:
